@@ -441,7 +441,7 @@ func TestC33(t *testing.T) {
 	cases := 0
 	rapid.Check(t, func(rt *rapid.T) {
 		cases++
-		v := th.PickVariant(rt, "vtu", "vtu", "vtw", "vocc")
+		v := th.PickVariant(rt, "vtu", "vtu2", "vtw", "vocc")
 		a := activeOf(rec)
 		memo := map[*model.FieldInfo]bool{}
 		o := model.GenOpts{Avoid: a.avoid, Want: func(f *model.FieldInfo) bool {
